@@ -18,7 +18,8 @@ def pitfalls(ctx, rule, files):
     ctx.explain(f"{rule}: in the property's anchored files (a) a slice `x[-n:]` with a non-constant n is reached only where n is known "
                 "to be non-zero (for n == 0 it is the whole sequence); (b) tests for DIFFERENT keys of one mapping are not chained "
                 "with elif (`if 'a' in d: .. elif 'b' in d: ..` handles only one of two independent entries); (c) tolerances handed "
-                "positionally to np.allclose / np.isclose come in numpy's order (rtol, atol).")
+                "positionally to np.allclose / np.isclose come in numpy's order (rtol, atol); (d) np.meshgrid over a variable number of "
+                "axes (an index-combination grid) states indexing='ij' (the default 'xy' swaps the first two axes).")
     rels = {x[len("strawberryfields/"):] if x.startswith("strawberryfields/") else x for x in files}
     n = 0
     for f in ctx.tree.all_functions():
@@ -65,6 +66,13 @@ def pitfalls(ctx, rule, files):
                 ok = "atol" not in t3 and "rtol" not in t4
                 ctx.ob(rule, f.site, ok, "" if ok else f"`{ast.unparse(sub)[:60]}` passes the tolerances positionally in the order "
                        "(atol, rtol); numpy takes (rtol, atol): the absolute tolerance is applied as a relative one", role="tolerance-order",
+                       line=sub.lineno)
+            if isinstance(sub, ast.Call) and (dotted(sub.func) or "").split(".")[-1] == "meshgrid" and \
+                    any(isinstance(a, ast.Starred) for a in sub.args) and not any(k.arg == "indexing" for k in sub.keywords):
+                # a variable number of axes = an index-combination grid; numpy's default indexing='xy' swaps the first two axes
+                n += 1
+                ctx.ob(rule, f.site, False, f"`{ast.unparse(sub)[:60]}` enumerates combinations with numpy's default indexing='xy': the "
+                       "first two axes come out swapped with respect to itertools.product / kron order", role="meshgrid-xy",
                        line=sub.lineno)
             if isinstance(sub, ast.If) and len(sub.orelse) == 1 and isinstance(sub.orelse[0], ast.If):
                 def keytest(e):
